@@ -82,9 +82,19 @@ class Crate:
         for f in out:
             self.by_path.setdefault(f.path, f)
 
+    def _private_single_impl_trait(self, trait_path):
+        """A trait of this crate that is not reachable from outside and has exactly one impl: a private helper in disguise."""
+        tr = next((t for t in self.j.get("traits", []) if t.get("path") == trait_path), None)
+        if tr is None or tr.get("exported") is not False:
+            return False
+        n = sum(1 for i in self.j.get("impls", []) if strip_generics(i.get("trait") or "") == trait_path)
+        return n == 1
+
     def _should_inline(self, callee):
-        if callee.dk not in ("Fn", "AssocFn") or callee.j.get("impl_trait") or callee.j.get("exported"):
-            return False  # trait impl methods and the exported API are semantic anchors
+        if callee.dk not in ("Fn", "AssocFn") or callee.j.get("exported"):
+            return False  # the exported API is a semantic anchor
+        if callee.j.get("impl_trait") and not self._private_single_impl_trait(strip_generics(callee.j.get("impl_trait"))):
+            return False  # trait impl methods are semantic anchors (unless the trait is a private one-impl helper trait)
         if not callee.j.get("mir"):
             return False
         n = callee.name
